@@ -181,20 +181,57 @@ Qed.
 Lemma get_set_other' (s : state) o o' (x : obj) : o <> o' -> get_obj (set_obj s o x) o' = get_obj s o'.
 Proof. unfold TransformState.get_obj, TransformState.set_obj; cbn. apply nth_error_replace_other. Qed.
 
-(* what link_ does to a shallow copy of a transform that holds a (non-Parameter) tensor *)
+(* a fresh dict id is referred to by no object *)
+Lemma next_pd_fresh (s : state) ob : In ob (objs P G C s) -> o_pd P G C ob < next_pd P G C s.
+Proof.
+  unfold next_pd. generalize (npd P G C s). induction (objs P G C s) as [|a l IH]; intros m Hin; [contradiction|].
+  cbn. destruct Hin as [<-|Hin]; [|apply IH; exact Hin].
+  assert (Hm : forall l' m', m' <= fold_left (fun m ob => Nat.max m (S (o_pd P G C ob))) l' m').
+  { induction l' as [|x l' IHl]; intros m'; cbn; [lia|]. eapply Nat.le_trans; [|apply IHl]. lia. }
+  eapply Nat.lt_le_trans; [|apply Hm]. lia.
+Qed.
+
+(* what link_ does to a shallow copy n of a transform o that holds a tensor or a Parameter *)
 Lemma link_set_effect s n o obn ob r ip s2 :
   get_obj s n = Some obn -> get_obj s o = Some ob -> n <> o ->
   get_params s ob = Some (VTen r ip) ->
-  link_set P G C s n o = Ok tt s2 ->
-  exists obn2, get_obj s2 n = Some obn2 /\ get_obj s2 o = Some ob /\ pds P G C s2 = pds P G C s /\
+  link_set P G C cf s n o = Ok tt s2 ->
+  exists obn2, get_obj s2 n = Some obn2 /\ get_obj s2 o = Some ob /\ get_params s2 ob = Some (VTen r ip) /\
     tens P G C s2 = tens P G C s /\
     get_params s2 obn2 = Some (VLink o) /\ o_grid P G C obn2 = o_grid P G C obn /\ o_kind P G C obn2 = o_kind P G C obn
-    /\ o_inv P G C obn2 = o_inv P G C obn /\ o_v P G C obn2 = o_v P G C obn.
+    /\ o_inv P G C obn2 = o_inv P G C obn /\ o_v P G C obn2 = o_v P G C obn /\ o_cond P G C obn2 = o_cond P G C obn.
 Proof.
+  destruct (cfg_all_fields _ Hcf) as (_ & _ & _ & _ & _ & _ & _ & _ & _ & _ & _ & _ & _ & _ & _ & _ & _ & _ & Hun).
   intros Hn Ho Hne Hp H. unfold link_set, with_obj in H. fold (get_obj s n) (get_obj s o) in H. rewrite Hn, Ho in H.
   destruct (Nat.eqb n o) eqn:En; [apply Nat.eqb_eq in En; contradiction|].
   destruct (negb _); try discriminate.
-  assert (H' : bind P G C (set_params P G C s n (SetLink o)) (fun _ s1 =>
+  (* the un-sharing step: afterwards n's dict has no `params` key, o is untouched and reads the same cell *)
+  set (su := unshare_params P G C cf s n obn) in *.
+  assert (Hu : exists obu, get_obj su n = Some obu /\ get_obj su o = Some ob /\ get_params su ob = Some (VTen r ip) /\
+                 tens P G C su = tens P G C s /\
+                 (get_pd P G C su (o_pd P G C obu) = None \/ get_pd P G C su (o_pd P G C obu) = Some None) /\
+                 o_grid P G C obu = o_grid P G C obn /\ o_kind P G C obu = o_kind P G C obn /\ o_inv P G C obu = o_inv P G C obn /\
+                 o_v P G C obu = o_v P G C obn /\ o_cond P G C obu = o_cond P G C obn /\ o_p P G C obu = o_p P G C obn).
+  { subst su. unfold unshare_params. rewrite Hun.
+    destruct (get_pd P G C s (o_pd P G C obn)) as [[rr|]|] eqn:Epd.
+    - cbn [new_pd].
+      set (d := next_pd P G C s).
+      set (s' := mkSt P G C (tens P G C s) (fun d' => if Nat.eqb d' d then None else pds P G C s d') (S d) (objs P G C s)).
+      assert (Hn' : get_obj s' n = Some obn) by exact Hn.
+      exists (set_pdid P G C obn d). split; [apply (get_set_same' _ _ _ _ Hn')|].
+      split; [rewrite get_set_other'; auto|].
+      assert (Hlt : o_pd P G C ob <> d).
+      { unfold TransformState.get_obj in Ho. apply nth_error_In in Ho. pose proof (next_pd_fresh s ob Ho). subst d. lia. }
+      split.
+      { unfold TransformState.get_params, get_pd in *. cbn.
+        destruct (Nat.eqb (o_pd P G C ob) d) eqn:E; [apply Nat.eqb_eq in E; contradiction | exact Hp]. }
+      split; [reflexivity|]. split.
+      { left. unfold get_pd. cbn. destruct obn; cbn. rewrite Nat.eqb_refl. reflexivity. }
+      destruct obn; repeat split.
+    - exists obn. repeat split; auto.
+    - exists obn. repeat split; auto. }
+  destruct Hu as (obu & Hgu & Hou & Hpu & Htu & Hpd & Hgr & Hk & Hiv & Hvv & Hcd & Hpp).
+  assert (H' : bind P G C (set_params P G C su n (SetLink o)) (fun _ s1 =>
         with_obj P G C s1 n (fun ob1 =>
           match o_p P G C ob1 with
           | Some _ => Ok tt s1
@@ -208,30 +245,32 @@ Proof.
             end
           end)) = Ok tt s2).
   { destruct (o_kind P G C obn); try discriminate; exact H. }
-  clear H. unfold bind at 1 in H'. unfold set_params, with_obj in H'. fold (get_obj s n) in H'. rewrite Hn in H'.
-  destruct (get_pd P G C s (o_pd P G C obn)) eqn:Epd; try discriminate.
-  set (obn1 := set_slots P G C obn None None (Some (Some (MLink o)))) in *.
-  set (s1 := set_obj s n obn1) in *.
-  assert (Hg1 : get_obj s1 n = Some obn1) by (apply (get_set_same' _ _ _ _ Hn)).
+  clear H. unfold bind at 1 in H'. unfold set_params, with_obj in H'. fold (get_obj su n) in H'. rewrite Hgu in H'.
+  destruct Hpd as [Epd | Epd]; rewrite Epd in H'; [|discriminate].
+  set (obn1 := set_slots P G C obu None None (Some (Some (MLink o)))) in *.
+  set (s1 := set_obj su n obn1) in *.
+  assert (Hg1 : get_obj s1 n = Some obn1) by (apply (get_set_same' _ _ _ _ Hgu)).
   assert (Ho1 : get_obj s1 o = Some ob) by (unfold s1; rewrite get_set_other'; auto).
   unfold with_obj in H'. fold (get_obj s1 n) in H'. rewrite Hg1 in H'.
   assert (Hlink : forall x, get_params (set_obj s1 n (set_p P G C obn1 x)) (set_p P G C obn1 x) = Some (VLink o) /\ get_params s1 obn1 = Some (VLink o)).
-  { intro x. unfold TransformState.get_params, get_pd in *. subst obn1 s1. destruct obn; cbn in *. rewrite Epd. split; reflexivity. }
-  assert (Hf : forall x, o_grid P G C (set_p P G C obn1 x) = o_grid P G C obn /\ o_kind P G C (set_p P G C obn1 x) = o_kind P G C obn
-                /\ o_inv P G C (set_p P G C obn1 x) = o_inv P G C obn /\ o_v P G C (set_p P G C obn1 x) = o_v P G C obn).
-  { intro x. subst obn1. destruct obn; repeat split. }
-  assert (Hf1 : o_grid P G C obn1 = o_grid P G C obn /\ o_kind P G C obn1 = o_kind P G C obn
-                /\ o_inv P G C obn1 = o_inv P G C obn /\ o_v P G C obn1 = o_v P G C obn).
-  { subst obn1. destruct obn; repeat split. }
+  { intro x. unfold TransformState.get_params, get_pd in *. subst obn1 s1. destruct obu; cbn in *. rewrite Epd. split; reflexivity. }
+  assert (Hf : forall x, o_grid P G C (set_p P G C obn1 x) = o_grid P G C obu /\ o_kind P G C (set_p P G C obn1 x) = o_kind P G C obu
+                /\ o_inv P G C (set_p P G C obn1 x) = o_inv P G C obu /\ o_v P G C (set_p P G C obn1 x) = o_v P G C obu
+                /\ o_cond P G C (set_p P G C obn1 x) = o_cond P G C obu).
+  { intro x. subst obn1. destruct obu; repeat split. }
+  assert (Hf1 : o_grid P G C obn1 = o_grid P G C obu /\ o_kind P G C obn1 = o_kind P G C obu
+                /\ o_inv P G C obn1 = o_inv P G C obu /\ o_v P G C obn1 = o_v P G C obu /\ o_cond P G C obn1 = o_cond P G C obu).
+  { subst obn1. destruct obu; repeat split. }
+  assert (Hp1 : get_params s1 ob = Some (VTen r ip)) by (rewrite (get_params_pds su s1 ob eq_refl); exact Hpu).
   destruct (o_p P G C obn1) eqn:Ep1.
-  - injection H' as <-. exists obn1. destruct (Hlink None) as [_ Hl]. destruct Hf1 as (A & B & D & E).
-    repeat split; auto.
-  - assert (Hp1 : get_params s1 ob = Some (VTen r ip)) by (rewrite (get_params_pds s s1 ob eq_refl); exact Hp).
-    rewrite Hp1 in H'. unfold bind, with_obj in H'. fold (get_obj s1 o) in H'. rewrite Ho1 in H'.
+  - injection H' as <-. exists obn1. destruct (Hlink None) as [_ Hl]. destruct Hf1 as (A & B & D & E & F).
+    repeat split; auto; congruence.
+  - rewrite Hp1 in H'. unfold bind, with_obj in H'. fold (get_obj s1 o) in H'. rewrite Ho1 in H'.
     unfold data_ref in H'. rewrite Hp1 in H'. injection H' as <-.
-    exists (set_p P G C obn1 (Some r)). destruct (Hlink (Some r)) as [Hl _]. destruct (Hf (Some r)) as (A & B & D & E).
+    exists (set_p P G C obn1 (Some r)). destruct (Hlink (Some r)) as [Hl _]. destruct (Hf (Some r)) as (A & B & D & E & F).
     split; [apply (get_set_same' _ _ _ _ Hg1)|]. split; [rewrite get_set_other'; auto|].
-    repeat split; auto.
+    split; [exact Hp1|].
+    repeat split; auto; congruence.
 Qed.
 
 Theorem inverse_follows s o link upd n s1 ob :
@@ -251,19 +290,19 @@ Proof.
   assert (Hgn : get_obj sp n0 = Some ob) by (unfold TransformState.get_obj, sp, n0; cbn; apply nth_error_app_new).
   assert (Hgo : get_obj sp o = Some ob) by (unfold TransformState.get_obj, sp; cbn; apply nth_error_app_old; exact Ho).
   (* the object that receives the inverted flag, and what it reads *)
-  assert (Hmid : exists s2 ob2, (if link && true then link_set P G C sp n0 o else Ok tt sp) = Ok tt s2 /\
-            get_obj s2 n0 = Some ob2 /\ get_obj s2 o = Some ob /\ pds P G C s2 = pds P G C s /\
+  assert (Hmid : exists s2 ob2, (if link && true then link_set P G C cf sp n0 o else Ok tt sp) = Ok tt s2 /\
+            get_obj s2 n0 = Some ob2 /\ get_obj s2 o = Some ob /\ get_params s2 ob = get_params s ob /\
             o_grid P G C ob2 = o_grid P G C ob /\ o_kind P G C ob2 = o_kind P G C ob /\ o_inv P G C ob2 = o_inv P G C ob /\
             ((get_params s2 ob2 = get_params s ob /\ o_cond P G C ob2 = o_cond P G C ob /\ link = false)
              \/ (get_params s2 ob2 = Some (VLink o) /\ link = true))).
   { destruct link; cbn [andb] in *.
-    - destruct (link_set P G C sp n0 o) as [[] s2|] eqn:El; try discriminate.
+    - destruct (link_set P G C cf sp n0 o) as [[] s2|] eqn:El; try discriminate.
       destruct Hpk as [(r & ip & Hp) | (Hx & _)]; [|discriminate].
       assert (Hp' : get_params sp ob = Some (VTen r ip)) by (rewrite (get_params_pds s sp ob eq_refl); exact Hp).
       destruct (link_set_effect sp n0 o ob ob r ip s2 Hgn Hgo Hlen Hp' El) as (ob2 & A & B & D & _ & E & F & K & I & _).
-      exists s2, ob2. repeat split; auto.
+      exists s2, ob2. repeat split; auto. congruence.
     - exists sp, ob. repeat split; auto. }
-  destruct Hmid as (s2 & ob2 & Em & Hg2 & Ho2 & Epd & Hgr & Hk & Hiv & Hc).
+  destruct Hmid as (s2 & ob2 & Em & Hg2 & Ho2 & Epo & Hgr & Hk & Hiv & Hc).
   rewrite Em in H. unfold with_obj in H. fold (get_obj s2 n0) in H. rewrite Hg2 in H.
   injection H as <- <-.
   set (obn := if has_exp (o_kind P G C ob) && upd then _ else _).
@@ -279,7 +318,7 @@ Proof.
   assert (Egp : get_params (set_obj s2 n0 obn) obn = get_params s2 ob2).
   { unfold TransformState.get_params, get_pd. cbn. rewrite Ha, Hd, Hb, Hm. reflexivity. }
   assert (Egpo : get_params (set_obj s2 n0 obn) ob = get_params s ob).
-  { unfold TransformState.get_params, get_pd. cbn. rewrite Epd. reflexivity. }
+  { rewrite <- Epo. unfold TransformState.get_params, get_pd. reflexivity. }
   refine (conj _ (conj _ (conj _ (conj _ (conj Hi (conj Hv _)))))).
   - rewrite get_set_other'; auto.
   - apply (get_set_same' _ _ _ _ Hg2).
